@@ -50,6 +50,8 @@ fn families(tier: Tier, flavour_s: bool, prop: &str) -> Vec<Family> {
             Family { name: "n<=4 all histories", opts: base(1, 4, 4), bound: None, dups: false },
             Family { name: "n=5 <=3 deviations", opts: base(5, 5, 5), bound: Some(3), dups: true },
             Family { name: "n=6 <=2 deviations", opts: UniverseOpts { merge_ranks: vec![MergeRank::Hash], ..base(6, 6, 0) }, bound: Some(2), dups: false },
+            Family { name: "n=5 all histories (reduced ranks)", opts: UniverseOpts { merge_ranks: vec![MergeRank::Hash], prios: vec![0], ..base(5, 5, 0) }, bound: None, dups: false },
+            Family { name: "n=7 <=1 deviation (reduced ranks, one priority)", opts: UniverseOpts { merge_ranks: vec![MergeRank::Hash], prios: vec![0], ..base(7, 7, 0) }, bound: Some(1), dups: false },
         ],
     }
 }
